@@ -584,6 +584,7 @@ pub fn run_one<D: Driver + 'static>(
 ) -> (Execution, Arc<D::Shared>) {
     let n = driver.threads();
     let exec = Exec::new(n, prefix.to_vec(), sleep_after_prefix.to_vec(), use_sleep, max_steps);
+    // setup runs unhooked on the explorer thread; a panic there is reported as a violation by the caller
     let shared = Arc::new(driver.setup());
     for t in 0..n {
         let exec2 = exec.clone();
@@ -728,7 +729,27 @@ pub fn explore<D: Driver + 'static>(driver: D, mode: Mode, max_execs: u64, worke
                 if total.fetch_add(1, MemOrd::Relaxed) >= max_execs {
                     local.cap_hit = true;
                 } else {
-                    let (x, sh) = run_one(&driver, &pool, &work.prefix, &work.sleep, use_sleep, 4000);
+                    let ran = std::panic::catch_unwind(std::panic::AssertUnwindSafe(|| {
+                        let (x, sh) = run_one(&driver, &pool, &work.prefix, &work.sleep, use_sleep, 4000);
+                        let verdict = if x.abort.is_none() { Some(driver.check(&sh, &x)) } else { None };
+                        (x, sh, verdict)
+                    }));
+                    let (x, sh, mut verdict) = match ran {
+                        Ok(t) => t,
+                        Err(p) => {
+                            let msg = p.downcast_ref::<String>().cloned().or_else(|| p.downcast_ref::<&str>().map(|s| s.to_string())).unwrap_or_default();
+                            local.executions += 1;
+                            local.violations.push((
+                                format!("panic-in-setup-or-quiescent-check:{}", driver.name().split(' ').next().unwrap_or("")),
+                                format!("{}: sequential setup / quiescent reads panicked: {}", driver.name(), msg),
+                                json!({"engine": "vsched", "driver": driver.name(), "schedule": work.prefix, "detail": msg}),
+                            ));
+                            let mut g = q.queue.lock().unwrap();
+                            g.1 -= 1;
+                            q.cv.notify_all();
+                            continue;
+                        }
+                    };
                     local.steps += x.steps.len() as u64;
                     local.nodes += (x.nodes.len().saturating_sub(work.prefix.len())) as u64;
                     let names = driver.cell_names(&sh);
@@ -758,7 +779,7 @@ pub fn explore<D: Driver + 'static>(driver: D, mode: Mode, max_execs: u64, worke
                         None => {
                             local.executions += 1;
                             local.max_preemptions_seen = local.max_preemptions_seen.max(x.preemptions());
-                            match driver.check(&sh, &x) {
+                            match verdict.take().unwrap() {
                                 Ok(class) => {
                                     if local.sample.is_none() {
                                         local.sample = Some(json!({"driver": driver.name(), "schedule": x.choices(), "calls": x.calls.iter().map(|c| c.show()).collect::<Vec<_>>(), "outcome": class}));
@@ -965,6 +986,9 @@ pub fn explore_many<D: Driver + 'static>(
                 if r.cap_hit && mode == Mode::U && r.violations.is_empty() {
                     used = Mode::B(fallback_bound);
                     r = explore(copy, used, cap * 4, 1);
+                }
+                if std::env::var("VSCHED_VERBOSE").is_ok() {
+                    eprintln!("  {:?} {} execs (+{} blocked) cap_hit={} :: {}", used, r.executions, r.sleep_blocked, r.cap_hit, name);
                 }
                 out.lock().unwrap().push((i, name, used, r));
             });
